@@ -365,28 +365,34 @@ class PartialSchemas(PartialFactory):
 # if we do it earlier, might lead to problems with forward refs and circularity
 
 
-def check_types(schema: Type[MetadataSchema], *, recheck: bool = False):
+def check_types(schema: Type[MetadataSchema], *, recheck: bool = False, _walk=None):
     if schema is MetadataSchema or schema.__types_checked__ and not recheck:
         return
+    top = _walk is None
+    walk = [] if top else _walk  # schemas marked as checked during this call
     schema.__types_checked__ = True
+    walk.append(schema)
     try:
         # recursively check compositional and inheritance dependencies
         for b in schema.__bases__:
             if issubclass(b, MetadataSchema):
-                check_types(b, recheck=recheck)
+                check_types(b, recheck=recheck, _walk=walk)
 
         schemaFields = cast(Any, schema.Fields)
         for f in schemaFields:  # type: ignore
             for sname in schemaFields[f].schemas:
                 s = schemaFields[f].schemas[sname]
                 if s is not schema and issubclass(s, MetadataSchema):
-                    check_types(s, recheck=recheck)
+                    check_types(s, recheck=recheck, _walk=walk)
 
         check_allowed_types(schema)
         check_overrides(schema)
     except Exception:
-        # a refused schema must be refused again when it is checked the next time
-        schema.__types_checked__ = False
+        if top:
+            # a refused schema must be refused again when it is checked the next time,
+            # and so must every schema that was passed only while it counted as checked
+            for s in walk:
+                s.__types_checked__ = False
         raise
 
 
